@@ -209,6 +209,14 @@ class BuiltinsBase:
                 if v.v != v.v:
                     return I(0, ty)
                 return I(max(lo, min(hi, int(v.v))), ty)
+            if ty in V.INT_RANGES:
+                lo, hi = V.INT_RANGES[ty]
+                x = v.z()
+                bits = 128
+                bv = z3.fpToSBV(z3.RTZ(), x, z3.BitVecSort(bits))
+                iv = z3.BV2Int(bv, is_signed=True)
+                sat = z3.If(z3.fpIsNaN(x), 0, z3.If(z3.fpGEQ(x, z3.FPVal(float(hi), V.FP)), hi, z3.If(z3.fpLEQ(x, z3.FPVal(float(lo), V.FP)), lo, iv)))
+                return I(sat, ty)
             raise Unsupported("cast float -> %s (symbolic)" % ty)
         if isinstance(v, bool) or is_sym(v):
             if ty in V.INT_RANGES:
